@@ -128,7 +128,7 @@ func runC04(t *testing.T, seed uint64, planJSON []byte, tier string) (res *Resul
 	} else {
 		tape = simkit.NewTape(seed)
 	}
-	res.Harness = runBubble(t, func(t *testing.T) {
+	res.Harness = runBubbleP(t, plan, func(t *testing.T) {
 		w := bootRemoting(seed, tape, BootCfg{LoadBalance: "RandomLoadBalance", CommitRetry: 5, RollbackRetry: 5},
 			simnet.Config{FragmentPct: 20, Reconnect: true, ReconnectAfter: 3 * time.Second})
 		sim, tc, net := w.Sim, w.TC, w.Net
